@@ -1,8 +1,10 @@
 mod abs;
+mod adv;
 mod cast;
 mod fam_c08;
 mod fam_c09;
 mod fam_sys;
+mod fuzz;
 mod scen;
 mod fam_c13;
 mod fam_c16;
@@ -14,6 +16,11 @@ mod rng;
 
 use serde_json::{json, Value};
 use std::io::BufRead;
+
+pub static LAST_PANIC: std::sync::Mutex<String> = std::sync::Mutex::new(String::new());
+pub fn last_panic() -> String {
+    LAST_PANIC.lock().map(|s| s.clone()).unwrap_or_default()
+}
 
 fn arg(args: &[String], key: &str) -> Option<String> {
     args.iter().position(|a| a == key).and_then(|i| args.get(i + 1).cloned())
@@ -62,6 +69,12 @@ type SysFam = fn(&mut scen::Engine, &mut rng::Rng, bool, &mut out::Out) -> fam_s
 fn sys_family(name: &str) -> Option<SysFam> {
     match name {
         "c04" => Some(fam_sys::c04),
+        "c01" => Some(fam_sys::c01),
+        "c02" => Some(fam_sys::c02),
+        "c03" => Some(fam_sys::c03),
+        "c05" => Some(fam_sys::c05),
+        "c06" => Some(fam_sys::c06),
+        "c12" => Some(fam_sys::c12),
         _ => None,
     }
 }
@@ -72,7 +85,13 @@ fn main() {
     let seed: u64 = arg(&args, "--seed").and_then(|s| s.parse().ok()).unwrap_or(1);
     let thorough = arg(&args, "--tier").map(|t| t == "thorough").unwrap_or(false);
     let out_path = arg(&args, "--out").unwrap_or_else(|| "/dev/null".into());
-    std::panic::set_hook(Box::new(|_| {}));
+    if std::env::var("VH_PANIC").is_err() {
+        // silent, but remember where the last panic happened (used in known-finding signatures)
+        std::panic::set_hook(Box::new(|info| {
+            let loc = info.location().map(|l| format!("{}:{}", l.file().rsplit('/').take(4).collect::<Vec<_>>().into_iter().rev().collect::<Vec<_>>().join("/"), l.line())).unwrap_or_default();
+            *LAST_PANIC.lock().unwrap() = loc;
+        }));
+    }
     let mut rng = rng::Rng::new(seed);
     let mut ctx = Ctx { out: out::Out::create(&out_path), world: None, sregs: fam_c09::SizeRegs::new() };
     let cases: Vec<Value> = match fam.as_str() {
